@@ -284,3 +284,54 @@ Proof.
         -- rewrite (NU m Et) in Hs. apply (I r m Hs).
       * rewrite upd_other in Hs by exact Hne. apply (I r0 m Hs).
 Qed.
+
+Ltac expl := unfold content, set_ctx, set_back, set_co, set_cin, set_min, set_sto, set_rin, set_vin, set_vb, set_oc,
+                    set_lbub, set_odir, set_ids; cbn; recs; cbn.
+
+Lemma note_ids_Inv rs ms s : Inv s -> Inv (note_ids rs ms s).
+Proof.
+  intros [A B C D E G H I J K]. unfold note_ids. constructor; cbn; try assumption.
+  - intros r m Hs. apply in_or_app. destruct (existsb (Z.eqb m) ms) eqn:Em.
+    + left. apply memz_In. exact Em.
+    + right. apply filter_In. split; [apply (I r m Hs)|rewrite Em; reflexivity].
+  - intros m r Hb. apply in_or_app. destruct (existsb (Z.eqb r) rs) eqn:Em.
+    + left. apply memz_In. exact Em.
+    + right. apply filter_In. split; [apply (J m r Hb)|rewrite Em; reflexivity].
+  - intros r Hr. apply in_or_app. destruct (existsb (Z.eqb r) rs) eqn:Em.
+    + left. apply memz_In. exact Em.
+    + right. apply filter_In. split; [apply (K r Hr)|rewrite Em; reflexivity].
+Qed.
+Lemma note_ids_mids rs ms s m : In m ms -> In m (mids (note_ids rs ms s)).
+Proof. intros H. unfold note_ids; cbn. apply in_or_app. left. exact H. Qed.
+Lemma note_ids_rids rs ms s r : In r rs -> In r (rids (note_ids rs ms s)).
+Proof. intros H. unfold note_ids; cbn. apply in_or_app. left. exact H. Qed.
+
+Lemma fold_assoc_nonzero (st0 : list (Z * Qc)) m : forall acc,
+  fold_left (fun a mc => if fst mc =? m then snd mc else a) st0 acc <> acc -> In m (map fst st0).
+Proof.
+  induction st0 as [|[a c] l IH]; intros acc H; cbn in *; [congruence|].
+  destruct (Z.eqb_spec a m) as [->|Hne].
+  - left. reflexivity.
+  - right. apply (IH acc). exact H.
+Qed.
+
+Lemma new_rxn_Inv s r l u st0 : Inv s -> Inv (fst (step s (NewRxn r l u st0))).
+Proof.
+  intros HI. cbn [step]. destruct (rin s r) eqn:Er; [exact HI|]. cbn [fst].
+  pose proof (note_ids_Inv [r] (map fst st0) s HI) as H0.
+  set (s0 := note_ids [r] (map fst st0) s) in *.
+  assert (Er0 : rin s0 r = false) by exact Er.
+  assert (Hm : forall m, In m (map fst st0) -> In m (mids s0)) by (intros m Hm; apply note_ids_mids; exact Hm).
+  clearbody s0. destruct H0 as [A B C D E G H I J K].
+  expl. constructor; cbn; try assumption.
+  - intros r0 Hr0. assert (r0 <> r) by congruence. rewrite !upd_other by assumption. apply B. exact Hr0.
+  - intros m r0. destruct (Z.eqb_spec r0 r) as [E0|Hne]; [subst r0|].
+    + destruct (D m r) as [D1 D2]. rewrite Er0 in *. cbn [andb] in *. tauto.
+    + rewrite upd_other by exact Hne. apply D.
+  - intros r0 m Hr0 Hs. assert (r0 <> r) by congruence. rewrite upd_other in Hs by assumption. apply (G r0 m Hr0 Hs).
+  - intros m r0 Hb. destruct (H m r0 Hb) as [X [Y Z]]. assert (r0 <> r) by congruence.
+    rewrite upd_other by assumption. tauto.
+  - intros r0 m Hs. destruct (Z.eqb_spec r0 r) as [E0|Hne]; [subst r0|].
+    + rewrite upd_same in Hs. apply Hm. apply (fold_assoc_nonzero st0 m q0). exact Hs.
+    + rewrite upd_other in Hs by exact Hne. apply (I r0 m Hs).
+Qed.
